@@ -228,6 +228,14 @@ pub async fn run(out: &mut Out) {
         let host: String = (0..rng.range(1, 12)).map(|_| (b'a' + rng.below(26) as u8) as char).collect();
         hreqs.push(Req { listener: rng.pick(&["http", "socks"]).to_string(), connector: None, feature: Feature::TcpForward, source: sa("10.0.0.7:40000"), target: TargetAddress::DomainPort(host, rng.below(65536) as u16) });
     }
+    // degenerate key values (empty string: empty listener name, empty host), several requests each, spread over the run
+    for i in 0..4u16 {
+        let at = (i as usize * 7 + 3) % (hreqs.len() + 1);
+        hreqs.insert(at, Req { listener: "".into(), connector: None, feature: Feature::TcpForward, source: sa("10.0.0.7:40000"), target: TargetAddress::DomainPort("".into(), 443 + i) });
+    }
+    // every request twice: equal keys must meet again after other selections
+    let again = hreqs.clone();
+    hreqs.extend(again);
     for key in keys.iter() {
         for n in [2usize, 3, 5, 7] {
             let (w, lb) = lb_world(n, &format!("algorithm:\n  hashBy: '{}'", key)).await;
